@@ -30,14 +30,28 @@ LEVEL_TEXT = ("Proof of the T1 theorems for all source trees, arenas, capacities
               "either side never show through), cap_copy (exactly one new table entry holding the source's client). Differential "
               "run: every copy agrees byte for byte with the model, incl. capability table contents and client reference counts, "
               "trees of both sides before/after mutations.")
-LEVEL_NOTE = ("T2 is proved in two halves. Value half (C16_copy_value_*, eqcanon engineer): a cross-message copy into a "
-              "single-segment destination reads as the value the source denotes, resized for version skew; not for multi-segment "
-              "destinations or copies inside one message (the tie shows those per program). Independence half "
-              "(Properties_C16_indep.v, any arena): a copy consists of fresh table objects disjoint from all older ones, so later "
-              "writes to the source never change the copy and vice versa (C16_copy_independent); no builder op writes the source "
-              "message (C16_copy_keeps_source, C16_source_unchanged) and source-side setters do not write the destination. The +1 "
-              "reference of a re-homed capability is observed through the hook VerifRefs and compared with the table contents, "
-              "not modelled in Coq (Cap.v is C10's).")
+LEVEL_NOTE = ("T2 ('the copy is equal and independent') is proved in two halves, each with restrictions. VALUE HALF "
+              "(C16_copy_value_*, eqcanon engineer): the slot written reads as the value the source denotes, resized for "
+              "version skew, ONLY for (1) a single-segment destination (no far / double-far placement inside the copy), "
+              "(2) copies from another message (InSrc), not copies inside one message, (3) capability-free source trees "
+              "(cvdom; the single-segment view has no capability table), (4) word-aligned sources (aligned / caligned: not the "
+              "sub-word member structs of 1/2/4-byte lists). Outside these four the equality of the trees is checked per "
+              "program by the runs. INDEPENDENCE HALF (Properties_C16_indep.v, any arena): C16_copy_independent is a byte-level "
+              "frame property of the table invariant for any split of the object table into older and newer entries (a write "
+              "inside an entry of one part changes no byte of the other); it does not mention write_ptr. The split and the "
+              "non-shallowness come from C16_forced_copy_fresh: whenever writePtr copies inside one message (forceCopy - set by "
+              "copyStruct for every pointer it copies - or a list-member source; non-empty struct or list), the object table grows "
+              "by an entry h that starts at the old end of its segment, is disjoint from every older object incl. the source, "
+              "and the slot written resolves to exactly h. This is a theorem about ONE writePtr call, applicable at every depth "
+              "because copyStruct writes every pointer through writePtr with forceCopy; the closure 'every slot reachable from "
+              "the copy designates a new entry' is NOT stated as one theorem (C05_copy_all would have to be re-proved with that "
+              "conclusion) - the runs check whole trees of both sides after mutating either, C16_forced_copy_is_deep_example "
+              "shows a two-level case; for copies from another message deepness follows from "
+              "the value half within its four restrictions. Proved without restriction: the byte-level frame (C16_copy_fresh: "
+              "no older byte but the pointer word changes), no builder op writes the source message (C16_copy_keeps_source, "
+              "C16_source_unchanged), source-side setters do not write the destination. The +1 reference of a re-homed "
+              "capability is observed through the hook VerifRefs and compared with the table contents, not modelled in Coq "
+              "(Cap.v is C10's).")
 DESIGN_REF = "DESIGN.md section 6, C16"
 
 classify = bc.classify
